@@ -3203,6 +3203,124 @@ KERNELS += [
          props=["C12", "C13"], model="WW.Inc.Flow.endAt",
          theorem="WW.KernelsFlowHist.gen_get_flow_current_end_epoch_eq_model", module="WW.Props.Kernels.FlowHist"),
 ]
+
+# ---- additions: FRAGMENT kernels — a stretch of consecutive statements inside a storage-reading handler ------------
+# A handler such as the vault's `after_trade` reads its configuration and the chain (storage, queries) and then
+# does arithmetic INLINE.  A fragment kernel ties that inline arithmetic to the model: the kernel entry names the
+# handler (`fn`), the first and the last source line of the stretch by a regular expression each (`start`, `end`:
+# each must match EXACTLY ONE line of the handler's text, else the kernel fails loudly), the variables the stretch
+# reads from what came before it as typed parameters (`params`: name -> Rust type text, parsed by the ordinary type
+# parser), and the locals whose values are the result (`result`).  The tokens of the selected lines are parsed as
+# one block `{ <lines> }` by the ordinary parser and translated by the ordinary statement rules — nothing in the
+# stretch is skipped; a statement the translator does not understand (a storage access, a query, a message) makes
+# the kernel UNTRANSLATABLE.  The generated definition returns the tuple of the `result` locals (`Res (T1 × … × Tn)`);
+# `?` / `return Err(..)` inside the stretch end it with `err` as in a function returning `Result`.
+# What a fragment does NOT establish (trusted, stated in DESIGN 9.7): that the values the handler binds to the
+# parameter names before the stretch are the ones the model passes, and what the handler does with the results
+# afterwards — those stay with the sampled correspondence.
+ERROR_TYPES = ERROR_TYPES + ("VaultError",)
+STRUCTURAL += [
+    ("fragment kernel (`fragment=dict(start, end, params, result)`)",
+     "the consecutive source lines start..end of a handler, parsed as one block; free variables = typed parameters; result = tuple of named locals; `?` / `return Err` = `Res.err`"),
+]
+
+_translate_whole_fn = Tr.translate
+_term_of_base = Tr.term_of
+
+
+def _parse_type_text(text, line):
+    toks = tokenize(text)
+    for t in toks:
+        t.line = line
+    ps = Parser(toks)
+    ty = ps.ty()
+    if ps.peek().k != "eof":
+        raise U(line, f"trailing tokens in the parameter type `{text}`")
+    return ty
+
+
+def _translate_fragment(self):
+    k = self.kern
+    fr = k.get("fragment")
+    if not fr:
+        return _translate_whole_fn(self)
+    f = self.file
+    it = f.unique(f.fns, (k.get("impl"), k["fn"]), "fn")
+    cfg_keep(it["attrs"], it["line0"])
+    sel = {}
+    for which in ("start", "end"):
+        rx = re.compile(fr[which])
+        hits = [ln for ln in range(it["line0"], it["line1"] + 1) if rx.search(f.lines[ln - 1])]
+        if len(hits) != 1:
+            raise U(it["line0"], f"fragment {which} pattern /{fr[which]}/ matches {len(hits)} lines of `{k['fn']}` (exactly one is required)")
+        sel[which] = hits[0]
+    if sel["end"] < sel["start"]:
+        raise U(sel["start"], "fragment ends before it starts")
+    body_toks = [t for t in f.toks if t.k != "eof" and sel["start"] <= t.line <= sel["end"]]
+    if not body_toks:
+        raise U(sel["start"], "empty fragment")
+    toks = [Tok("p", "{", sel["start"])] + body_toks + [Tok("p", "}", sel["end"]), Tok("eof", "", sel["end"])]
+    ps = Parser(toks)
+    blk = ps.block()
+    if ps.peek().k != "eof":
+        raise U(ps.peek().line, "the fragment's lines are not a sequence of complete statements")
+    if blk["tail"] is not None:
+        raise U(sel["end"], "the fragment ends in an expression without `;`")
+    self.item = dict(it, line0=sel["start"], line1=sel["end"])
+    self.self_ty = None
+    env, params = {}, []
+    for pname, ptext in fr["params"]:
+        t = resolve_type(self.ctx, _parse_type_text(ptext, sel["start"]), self.names, None)
+        env[pname] = t
+        params.append((lean_ident(pname), t))
+    self.into_params = set()
+    self.spec_field_names = set()
+    self.ret_is_option = False
+    self.ret = ("res", NEVER)   # placeholder while the statements are translated: `?` and `return Err` are allowed
+    blk["tail"] = N("fragresult", sel["end"], names=list(fr["result"]))
+    self.notes.append(f"FRAGMENT of `{k['fn']}` ({k['file']}:{it['line0']}-{it['line1']}): source lines {sel['start']}-{sel['end']}; "
+                      f"parameters = the variables the stretch reads ({', '.join(n for n, _ in fr['params'])}); result = ({', '.join(fr['result'])})")
+    lines, ty = self.captured(blk, "fn", env, None)
+    inner = ty[1] if isinstance(ty, tuple) and ty[0] == "res" else ty
+    self.ret = ("res", inner)
+    self.params, self.ret_inner = params, inner
+    sig = " ".join(f"({n} : {lean_type(self.ctx, t)})" for n, t in params)
+    head = f"def {k['lean']} {sig} : Res {atom(lean_type(self.ctx, inner))} := do".replace("  :", " :")
+    return [head] + indent(lines)
+
+
+def _term_of_with_fragresult(self, e, mode, env, expected=None):
+    if e["k"] == "fragresult":
+        vals, tys = [], []
+        for n in e["names"]:
+            if n not in env or (isinstance(env[n], tuple) and env[n] and env[n][0] == "special"):
+                raise U(e["line"], f"fragment result `{n}` is not a local of the stretch")
+            if n in self.uninit:
+                raise U(e["line"], f"fragment result `{n}` has no value")
+            vals.append(lean_ident(n))
+            tys.append(env[n])
+        if len(vals) == 1:
+            return [f"pure {vals[0]}"], ("res", tys[0])
+        return ["pure (" + ", ".join(vals) + ")"], ("res", ("tuple",) + tuple(tys))
+    return _term_of_base(self, e, mode, env, expected)
+
+
+Tr.translate = _translate_fragment
+Tr.term_of = _term_of_with_fragresult
+
+VAULT_STD = STD + "vault_network/vault.rs"
+VAULT_SRC = LH + "vault-network/vault/src/"
+TYPES["VaultConfig"] = dict(rust="Config", file=VAULT_STD, lean="VaultConfig", names={"VaultFee": "VaultFee", "Fee": "Fee"})
+KERNELS += [
+    dict(lean="vault_after_trade_settlement", file=VAULT_SRC + "execute/callback/after_trade.rs", fn="after_trade",
+         fragment=dict(start=r"^\s*let protocol_fee\s*=", end=r"^\s*\.checked_sub\(burn_fee\)\?;",
+                       params=[("config", "Config"), ("old_balance", "Uint128"), ("loan_amount", "Uint128"), ("new_balance", "Uint128")],
+                       result=["protocol_fee", "flash_loan_fee", "burn_fee", "required_amount", "profit"]),
+         types={"Config": "VaultConfig", "VaultFee": "VaultFee", "Fee": "Fee"},
+         props=["C05", "C06", "C07"], model="WW.Vault.fee / the first two tests of WW.Vault.afterTradeOk",
+         theorem="WW.KernelsVault.gen_vault_after_trade_settlement_eq_model", module="WW.Props.Kernels.Vault"),
+]
+
 # the generated file imports the map primitives next to the number primitives
 GEN_IMPORTS = ["import WW.Cw.Arith", "import WW.Cw.BTree"]
 
